@@ -237,7 +237,8 @@ type state struct {
 	writer  map[string]form // role -> name the sender writes
 	fc, cur int64           // FcvCheckpoint constants
 	okFcv   bool
-	unknown string // default run id of fetchCheckpoint
+	unknown string                 // default run id of fetchCheckpoint
+	opaque  func(*types.Func) bool // the anchored functions stay calls in every view
 }
 
 func Run(c *core.Ctx) {
@@ -247,6 +248,14 @@ func Run(c *core.Ctx) {
 	fetch := c.Func(pkgCk, "", "fetchCheckpoint")
 	load := c.Func(pkgCk, "", "LoadCheckpoint")
 	clear := c.Func(pkgCk, "", "ClearCheckpoint")
+	st.opaque = func(f *types.Func) bool {
+		for _, a := range []*core.Fn{fetch, load, clear} {
+			if a != nil && a.Obj == f {
+				return true
+			}
+		}
+		return false
+	}
 	c.Func(pkgUtils, "", "ParseKeyspace")
 	if fetch != nil {
 		st.reader(fetch, 1)
@@ -394,9 +403,10 @@ func successReturns(info *types.Info, body *ast.BlockStmt) []*ast.ReturnStmt {
 func (st *state) reader(fn *core.Fn, depth int) {
 	c := st.c
 	info := fn.Pkg.TypesInfo
-	body := fn.Decl.Body
-	g := cfgq.Of(c.Program, fn)
-	x := tt.New(g)
+	view := tt.ViewOf(c.Program, fn, "c14", st.opaque)
+	body := view.Body
+	g := view.G
+	x := view.X(c.Program)
 
 	// the scanning return: results are variables
 	var scan *ast.ReturnStmt
@@ -602,13 +612,30 @@ func (st *state) reader(fn *core.Fn, depth int) {
 			var eq []form
 			var weak []string
 			unknown := false
-			whole := func(e ast.Expr) bool { // the complete field name, not a part of it
+			var whole func(e ast.Expr) bool
+			whole = func(e ast.Expr) bool { // the complete field name, not a part of it
 				if rootIdent(info, e) != nil {
 					return true
 				}
-				_, isIdx := ast.Unparen(e).(*ast.IndexExpr)
-				_, isAssert := ast.Unparen(e).(*ast.TypeAssertExpr)
-				return isIdx || isAssert
+				switch v := ast.Unparen(e).(type) {
+				case *ast.IndexExpr, *ast.TypeAssertExpr:
+					return true
+				case *ast.CallExpr:
+					// a one-argument conversion helper (utils.Bytes2String, string(..), []byte(..))
+					if len(v.Args) == 1 && whole(v.Args[0]) {
+						if t := info.TypeOf(v); t != nil {
+							if b, ok := t.Underlying().(*types.Basic); ok && b.Info()&types.IsString != 0 {
+								return true
+							}
+							if sl, ok := t.Underlying().(*types.Slice); ok {
+								if b, ok := sl.Elem().Underlying().(*types.Basic); ok && b.Kind() == types.Byte {
+									return true
+								}
+							}
+						}
+					}
+				}
+				return false
 			}
 			for _, t := range tests {
 				t := t
@@ -618,6 +645,9 @@ func (st *state) reader(fn *core.Fn, depth int) {
 				}
 				switch e := ast.Unparen(t.expr).(type) {
 				case *ast.BinaryExpr:
+					if (e.Op == token.EQL || e.Op == token.NEQ) && (e.Op == token.EQL) != t.val {
+						continue // "is not this name": an earlier case of a switch / else-if chain, not a selection
+					}
 					if (e.Op == token.EQL) == t.val && (e.Op == token.EQL || e.Op == token.NEQ) {
 						other, name := e.Y, e.X
 						if mentionsName(e.Y) {
@@ -720,7 +750,7 @@ func sourceChain(c *core.Ctx, fn *core.Fn, idx int, depth int) (ok, known bool, 
 					if idx >= len(call.Args) {
 						return false, false, call.Pos()
 					}
-					arg := tt.Resolve(info, fd.Body, call.Args[idx], 2)
+					arg := tt.Resolve(info, fd.Body, call.Args[idx], 6)
 					if isSourceField(info, arg) {
 						continue
 					}
@@ -728,6 +758,9 @@ func sourceChain(c *core.Ctx, fn *core.Fn, idx int, depth int) (ok, known bool, 
 					if j := -1; encl != nil {
 						if j = paramIndex(info, encl, arg); j >= 0 {
 							o, k, p := sourceChain(c, encl, j, depth-1)
+							if !k && callSites(c, encl) == 0 {
+								continue // a helper nobody calls (its calls were expanded in place): dead code
+							}
 							if !k {
 								return false, false, p
 							}
@@ -750,6 +783,20 @@ func sourceChain(c *core.Ctx, fn *core.Fn, idx int, depth int) (ok, known bool, 
 		return false, false, pos
 	}
 	return ok, known, pos
+}
+
+// callSites counts the calls of fn in the checkpoint and dbSync packages.
+func callSites(c *core.Ctx, fn *core.Fn) int {
+	n := 0
+	for _, pk := range c.Pkgs {
+		if pk.ID != pk.PkgPath || pk.TypesInfo == nil || !(strings.HasSuffix(pk.PkgPath, "/"+pkgCk) || strings.HasSuffix(pk.PkgPath, "/"+pkgSync)) {
+			continue
+		}
+		for _, file := range pk.Syntax {
+			n += len(core.CallsAll(file, pk.TypesInfo, func(_ *ast.CallExpr, callee types.Object) bool { return callee == types.Object(fn.Obj) }))
+		}
+	}
+	return n
 }
 
 func asFunc(o types.Object) *types.Func {
